@@ -902,6 +902,16 @@ func errorLineFromUserExpression(c *Ctx, rule string) {
 			}
 			return true
 		})
+		// … or in a helper it hands the expression to (locate the error, then write the handler)
+		for _, prm := range paramObjs(g.info, gf.Decl) {
+			if prm != nil && types.Identical(prm.Type(), g.exprType) {
+				paramSelectors(g.pkg, gf.Decl, prm, 0, func(se *ast.SelectorExpr) {
+					if se.Sel.Name == "Range" {
+						reads = true
+					}
+				})
+			}
+		}
 	}
 	c.check(reads, rule, pkgGenerator+"|error-handler-reads-expression-range", "", "the emitted error handler takes its line from the Range of the expression it is given",
 		"no error-handler emitter reads the Range of a parser.Expression: the source line in templ.Error no longer comes from the failing expression")
